@@ -310,8 +310,10 @@ fn bb_fixture<const EXT: bool>() -> Fixture {
     }
 }
 
-/// KoalaBear D=4 with a Poseidon2 table and a recompose table.
-fn kb_npo_fixture() -> Fixture {
+/// KoalaBear D=4 with a Poseidon2 table and a recompose table. `REVERSED`: the recompose table is
+/// registered (prover, preprocessors, AIR builders) BEFORE the Poseidon2 table, so the proof's
+/// table list is not in lexicographic order of the op types.
+fn kb_npo_fixture<const REVERSED: bool>() -> Fixture {
     type Proof = BatchStarkProof<KoalaBearConfig>;
     let perm = default_koalabear_poseidon2_16();
     let mut b = CircuitBuilder::<KB4>::new();
@@ -362,8 +364,13 @@ fn kb_npo_fixture() -> Fixture {
     };
     let mk_prover = move || {
         let mut prover = BatchStarkProver::new(fast_cfg()).with_table_packing(TablePacking::new(2, 2));
-        prover.register_poseidon2_table::<4>(Poseidon2Config::KOALA_BEAR_D4_W16);
-        prover.register_recompose_table::<4>(false);
+        if REVERSED {
+            prover.register_recompose_table::<4>(false);
+            prover.register_poseidon2_table::<4>(Poseidon2Config::KOALA_BEAR_D4_W16);
+        } else {
+            prover.register_poseidon2_table::<4>(Poseidon2Config::KOALA_BEAR_D4_W16);
+            prover.register_recompose_table::<4>(false);
+        }
         prover
     };
     let mut proofs = vec![];
@@ -372,9 +379,20 @@ fn kb_npo_fixture() -> Fixture {
         let mut rn = circuit.runner();
         rn.set_public_inputs(&[KB4::from_u64(9)]).unwrap();
         let traces = rn.run().unwrap();
-        let npo_prep: Vec<Box<dyn NpoPreprocessor<KB>>> = vec![Box::new(Poseidon2Preprocessor), Box::new(RecomposePreprocessor::default())];
-        let mut air_builders = poseidon2_air_builders::<_, 4>();
-        air_builders.extend(recompose_air_builders(1, false));
+        let npo_prep: Vec<Box<dyn NpoPreprocessor<KB>>> = if REVERSED {
+            vec![Box::new(RecomposePreprocessor::default()), Box::new(Poseidon2Preprocessor)]
+        } else {
+            vec![Box::new(Poseidon2Preprocessor), Box::new(RecomposePreprocessor::default())]
+        };
+        let air_builders = if REVERSED {
+            let mut a = recompose_air_builders(1, false);
+            a.extend(poseidon2_air_builders::<_, 4>());
+            a
+        } else {
+            let mut a = poseidon2_air_builders::<_, 4>();
+            a.extend(recompose_air_builders(1, false));
+            a
+        };
         let (ad, prim, np) = get_airs_and_degrees_with_prep::<KoalaBearConfig, _, 4>(&circuit, &packing, &npo_prep, &air_builders, ConstraintProfile::Standard).unwrap();
         let (airs, degs): (Vec<_>, Vec<usize>) = ad.into_iter().unzip();
         let cfg = fast_cfg();
@@ -398,7 +416,7 @@ fn kb_npo_fixture() -> Fixture {
     }
     let verify = move |p: &Proof| -> Result<(), String> { mk_prover().verify_all_tables::<KB4>(p).map_err(|e| format!("{e:?}")) };
     Fixture {
-        name: "koalabear-d4-poseidon2-recompose",
+        name: if REVERSED { "koalabear-d4-recompose-poseidon2(reverse registration)" } else { "koalabear-d4-poseidon2-recompose" },
         inmem,
         proofs,
         verify_json: Box::new(move |v| match serde_json::from_value::<Proof>(v.clone()) {
@@ -549,7 +567,7 @@ fn main() {
     let histo = Histo::new();
     let panics = Histo::new();
 
-    let mut fixtures = vec![bb_fixture::<false>(), kb_npo_fixture()];
+    let mut fixtures = vec![bb_fixture::<false>(), kb_npo_fixture::<false>(), kb_npo_fixture::<true>()];
     if !ctx.quick() {
         fixtures.push(bb_fixture::<true>());
     }
@@ -660,6 +678,7 @@ fn main() {
         }
         // sanity of the proof set under correct metadata
         let mut set_info = vec![];
+        let mut skip_fixture = false;
         let mut usable: Vec<&(String, Value, bool)> = vec![];
         for p in &fx.proofs {
             let v = (fx.verify_json)(&p.1);
@@ -668,7 +687,18 @@ fn main() {
                 (Verdict::Accept, false) => usable.push(p),
                 (Verdict::Reject(_), true) => usable.push(p),
                 (Verdict::Accept, true) => histo.add("invalid_trace_proof_accepted_under_correct_metadata(C04 matter, excluded)"),
-                (other, false) => vpcore::machinery_error(&format!("honest fixture proof of {} not accepted: {other:?}", fx.name)),
+                (other, false) => {
+                    // the honest proof as DESERIALISED from its JSON form is not accepted. If the very same
+                    // proof object was accepted in memory this is the round-trip clause (reported above
+                    // from `fx.inmem`), not a broken fixture; the JSON-based enumeration of this fixture
+                    // has no reference point then and is skipped.
+                    let mem_ok = fx.inmem.iter().any(|(l, a, mem, _, _)| l == "honest" && a == "unaltered" && *mem == Verdict::Accept);
+                    if mem_ok {
+                        skip_fixture = true;
+                        break;
+                    }
+                    vpcore::machinery_error(&format!("honest fixture proof of {} not accepted: {other:?}", fx.name))
+                }
                 (Verdict::Panic(_), true) => usable.push(p),
                 _ => {}
             }
@@ -682,6 +712,10 @@ fn main() {
             if reser != p.1 {
                 vpcore::machinery_error("json value not stable");
             }
+        }
+        if skip_fixture {
+            histo.add("fixture_skipped_after_round_trip_violation");
+            continue;
         }
         if !usable.iter().any(|p| p.2) {
             vpcore::machinery_error(&format!("fixture {} has no rejected invalid-trace proof", fx.name));
